@@ -442,6 +442,13 @@ def mk_uint_assign(op):
         return UNIT
     return m
 
+def m_closure_call(it, st, args, info):
+    """<closure as Fn*>::call*(closure, (args..)): apply the closure (crate-local body, inlined)"""
+    f = args[0]
+    tup = strip_named(it.deref(st, args[1])) if len(args) > 1 else UNIT
+    cargs = list(tup[1]) if tup[0] == 'tup' else ([] if tup == UNIT else [tup])
+    return it.apply_callable(st, f, cargs, info['site'])
+
 def m_pure(it, st, args, info):
     """opaque pure call on dereferenced values (no &mut havoc)"""
     return ('call', info['name'], info['targs'], tuple(it.snapshot(st, a, info['site']) for a in args))
@@ -535,6 +542,7 @@ EXACT = {
     'cosmwasm_std::Response::<T>::add_attribute': m_add_attribute,
     'cosmwasm_std::Response::<T>::add_attributes': m_add_attributes,
     'cosmwasm_std::attr': m_attr,
+    'std::ops::FnOnce::call_once': m_closure_call, 'std::ops::FnMut::call_mut': m_closure_call, 'std::ops::Fn::call': m_closure_call,
     'std::ops::Sub::sub': mk_uint_op('Sub'), 'std::ops::Add::add': mk_uint_op('Add'),
     'std::ops::Mul::mul': mk_uint_op('Mul'), 'std::ops::Div::div': mk_uint_op('Div'),
     'std::ops::Rem::rem': mk_uint_op('Rem'),
